@@ -2,6 +2,7 @@ import Driver.C01
 import Driver.C06
 import Driver.C10
 import Driver.C12
+import Driver.C13
 import Driver.C14
 import Driver.C16
 import Driver.C17
@@ -26,6 +27,7 @@ def dispatch (prop : String) (args : List String) (impl : String) : Verdict :=
   | "C10" => C10.handle args impl
   | "C11" => C10.handle args impl
   | "C12" => C12.handle args impl
+  | "C13" => C13.handle args impl
   | "C14" => C14.handle args impl
   | "C16" => C16.handle args impl
   | "C17" => C17.handle args impl
